@@ -132,6 +132,7 @@ type Node struct {
 type Bounds struct {
 	MinLat, MaxLat, MinLon, MaxLon Float
 	LowerKeys                      bool
+	Omit                           [4]bool // member left out (MinLat, MaxLat, MinLon, MaxLon); its value is 0
 	Extra                          Object
 }
 
@@ -151,7 +152,7 @@ type Way struct {
 	Meta
 	HasNodes bool // "nodes" key written
 	Nodes    []int64
-	Updates  []Update // written when non-empty
+	Updates  []Update // written when non-nil (possibly as [])
 	Bounds   *Bounds
 }
 
@@ -201,6 +202,7 @@ type Changeset struct {
 	HasTags                        bool
 	Tags                           []Tag
 	HasDiscussion                  bool
+	DiscussionBare                 bool // "discussion": {} without a comments member
 	Comments                       []Comment
 	Extra                          Object
 }
@@ -334,10 +336,11 @@ func (bd *Bounds) Value() Value {
 	if bd.LowerKeys {
 		names = [4]string{"minlat", "maxlat", "minlon", "maxlon"}
 	}
-	b.put(names[0], bd.MinLat.value())
-	b.put(names[2], bd.MinLon.value())
-	b.put(names[1], bd.MaxLat.value())
-	b.put(names[3], bd.MaxLon.value())
+	for _, i := range []int{0, 2, 1, 3} {
+		if !bd.Omit[i] {
+			b.put(names[i], [4]Float{bd.MinLat, bd.MaxLat, bd.MinLon, bd.MaxLon}[i].value())
+		}
+	}
 	b.extra(bd.Extra)
 	return b.o
 }
@@ -379,7 +382,7 @@ func (w *Way) Object() Object {
 	if w.HasNodes {
 		b.put("nodes", idsValue(w.Nodes))
 	}
-	if len(w.Updates) > 0 {
+	if w.Updates != nil {
 		b.put("updates", updatesValue(w.Updates))
 	}
 	if w.Bounds != nil {
@@ -414,7 +417,7 @@ func (r *Relation) Object() Object {
 		}
 		b.put("members", a)
 	}
-	if len(r.Updates) > 0 {
+	if r.Updates != nil {
 		b.put("updates", updatesValue(r.Updates))
 	}
 	if r.Bounds != nil {
@@ -453,7 +456,11 @@ func (c *Changeset) Object() Object {
 			cb.extra(cm.Extra)
 			a = append(a, cb.o)
 		}
-		b.put("discussion", Object{{"comments", a}})
+		if c.DiscussionBare {
+			b.put("discussion", Object{})
+		} else {
+			b.put("discussion", Object{{"comments", a}})
+		}
 	}
 	b.extra(c.Extra)
 	return b.o
